@@ -100,9 +100,10 @@ func c13GenTable(t *rapid.T) (c13Table, string) {
 	cols := rapid.IntRange(2, 6).Draw(t, "cols")
 	recs := rapid.IntRange(2, 8).Draw(t, "recs")
 	for i := 0; i < recs; i++ {
-		if i > 0 && rapid.IntRange(0, 6).Draw(t, "cm") == 0 {
+		// comment lines and blank lines may come before any record, also before the first one
+		for rapid.IntRange(0, 7).Draw(t, "cm") == 0 {
 			tb.rows = append(tb.rows, nil)
-			tb.comment = append(tb.comment, rapid.SampledFrom([]string{"# comment", "#", "#a,b,c,d,e,f,g,h", "# \"unbalanced"}).Draw(t, "ct"))
+			tb.comment = append(tb.comment, rapid.SampledFrom([]string{"# comment", "#", "#a,b,c,d,e,f,g,h", "# \"unbalanced", "", "#\tx\ty", "# generated 2024-01-01"}).Draw(t, "ct"))
 		}
 		row := make([]string, cols)
 		allEmpty := true
